@@ -136,7 +136,7 @@ def run(chk):
     chk.traces += len(traces)
     chk.phase("exec")
     chk.sample(dict(kinds=traces[len(traces) // 2]["kinds"], script=traces[len(traces) // 2]["script"]))
-    verdicts, st = tlc.validate("TraceRf24Ctx", "TraceRf24Ctx", jsonable([dict(ev=t["ev"]) for t in traces]), shard=2000,
+    verdicts, st = tlc.validate("TraceRf24Ctx", "TraceRf24Ctx", jsonable([dict(ev=t["ev"], kinds=t["kinds"]) for t in traces]), shard=2000,
                                 timeout=1800)
     chk.add_stats(st, "enter/exit observations")
     chk.phase("judge")
